@@ -1,5 +1,5 @@
 """property id -> check function(prop, tier) -> exit code, plus the metadata bin/mkmanifest writes into MANIFEST.json"""
-import frame, keytree, calltracer, codec, precomp, cancun, steptrace, instances
+import frame, keytree, calltracer, codec, precomp, cancun, steptrace, instances, jpgas
 
 FRAME_NOTE = ("Trusted: TLC 1.8; go-ethereum v1.12.0's StateDB as world state; the scenario compiler (harness/scn) that turns model "
               "instructions into byte code; join-point failures are injected at provider level (GetTxBondAspects error) except where real WASM "
@@ -115,6 +115,14 @@ META = {
                       "instances are forced on real EVMs (a probe opcode enabled only by one instance's extra EIP must stay invalid in the other), Cancel is injected at every "
                       "position, results must equal solo results, frames must start with empty stacks, bookkeeping must be closed; free-running rounds add real parallelism."),
                 note="Trusted: TLC; the gating tracer. Absence of data races is observed with `go build -race` in the thorough tier on the schedules that ran, not proved."),
+    "C06": dict(fn=jpgas.check, engine="jpgas", design_ref="6 C06", replay="see the cmd field of {path}",
+                technique="TLC enumeration of JPGas.tla vectors executed with real WASM Aspects + TLC trace validation of the recorded gas figures (JPGasTrace.tla)",
+                text=("For every vector the recorded gas at each Aspect's entry and exit, at the callee's first and last instruction and at the caller after the CALL must satisfy: "
+                      "no Aspect leaves more than it got, Aspects of a join point chain exactly, the callee starts with what the pre join point left, the post join point "
+                      "starts with what the callee left, the caller gets back exactly what the post join point left (nothing when the frame fails other than by revert), "
+                      "never more than given, and an Aspect running out of gas yields the EVM's out-of-gas error with nothing returned; the structure (which Aspects and "
+                      "whether the callee ran, error class) must be the model's."),
+                note="Trusted: TLC; aspect-runtime's gas metering; what the caller really got back is derived from the caller's own gas before/after the CALL step, not from the exit callback."),
 }
 
 CHECKS = {p: m["fn"] for p, m in META.items()}
